@@ -454,6 +454,8 @@ class Interp:
         raise AnalysisError(f"circuit evaluation: operator in {src(node)[:60]}")
 
     def global_name(self, name, m):
+        if name in ("int", "float", "str", "tuple", "list", "bool", "dict"):
+            return ("external", "builtins." + name)
         r = self.repo.resolve(m, name)
         if r is None:
             raise AnalysisError(f"circuit evaluation: unresolved name {name}")
@@ -498,6 +500,10 @@ class Interp:
                 if attr == "_debug":
                     return self.sc.debug
                 return ("boundmethod", o, attr)
+            if o.kind in ("qubit", "future"):
+                if attr in ("_conn", "connection"):
+                    return Obj(None, {}, "conn")
+                return ("boundmethod", o, attr)
             if o.cls is not None:
                 al = self.repo.property_alias(o.cls, attr)
                 if al is not None:
@@ -541,6 +547,8 @@ class Interp:
             return o.T
         if isinstance(o, RegSym) and attr == "name":
             return ("external", "RegisterName.Q")
+        if isinstance(o, (str, list)) and attr in ("startswith", "endswith", "append", "count", "index", "upper", "lower", "strip", "extend"):
+            return getattr(o, attr)
         raise AnalysisError(f"circuit evaluation: attribute {attr} of {type(o).__name__} ({src(node)[:50] if node is not None else ''})")
 
     EXTERNAL = {
@@ -580,6 +588,10 @@ class Interp:
             c = t[1]
             if isinstance(o, Obj) and o.cls is not None:
                 return c in self.repo.mro(o.cls)
+            if isinstance(o, Obj) and o.kind == "future":
+                return c.name in ("Future", "BaseFuture")
+            if isinstance(o, Obj) and o.kind == "qubit":
+                return c.name == "Qubit"
             if isinstance(o, RegSym):
                 return c.name == "Register"
             if isinstance(o, Imm):
@@ -640,6 +652,11 @@ class Interp:
         raise AnalysisError(f"circuit evaluation: call of {f!r} ({src(node)[:50]})")
 
     def construct(self, c: ClassInfo, args, kwargs, node):
+        if c.name == "Qubit" and c.module.name.endswith("sdk.qubit"):
+            q = Obj(None, {"name": f"anc{len(self.sc.fresh)}"}, "qubit")
+            self.sc.fresh.append(q)
+            self.sc.recorded.append(("__new__", q, args, kwargs))
+            return q
         if c.name == "Immediate":
             v = args[0] if args else kwargs.get("value")
             return Imm(v)
@@ -677,6 +694,12 @@ class Interp:
             return self.call_function(r[0].module, r[1], args, kwargs, self_obj=o)
         if o.kind == "qubit":
             self.sc.recorded.append((name, o, args, kwargs))
+            if name == "measure":
+                f = Obj(None, {"of": o}, "future")
+                return f
+            return None
+        if o.kind == "future":
+            self.sc.recorded.append(("future." + name, o, args, kwargs))
             return None
         if o.cls is not None:
             r = self.repo.lookup(o.cls, name)
